@@ -15,6 +15,7 @@ import (
 	"net/http"
 	"strings"
 	"sync"
+	"sync/atomic"
 	"testing"
 	"time"
 
@@ -131,6 +132,12 @@ func TestC08Listeners(t *testing.T) {
 		up.last = nil
 		up.mu.Unlock()
 
+		early := int32(0)
+		if rapid.IntRange(0, 3).Draw(t, "early-hints-first") == 0 {
+			early = 1
+			hx.Class("listener:upstream-sends-103-first")
+		}
+		atomic.StoreInt32(&up.early, early)
 		raw, err := net.DialTimeout("tcp", l.addr, 5*time.Second)
 		if err != nil {
 			t.Fatalf("VERIF-INCONCLUSIVE dial: %v", err)
@@ -161,7 +168,11 @@ func TestC08Listeners(t *testing.T) {
 		if _, err := c.Write([]byte(b.String())); err != nil {
 			t.Fatalf("write: %v", err)
 		}
-		resp, err := http.ReadResponse(bufio.NewReader(c), &http.Request{Method: "GET"})
+		br := bufio.NewReader(c)
+		resp, err := http.ReadResponse(br, &http.Request{Method: "GET"})
+		for err == nil && resp.StatusCode >= 102 && resp.StatusCode < 200 {
+			resp, err = http.ReadResponse(br, &http.Request{Method: "GET"})
+		}
 		if err != nil {
 			t.Fatalf("no response: %v\n%s", err, s)
 		}
